@@ -136,6 +136,7 @@ fn run_family<F: Family>(p: &Program, verbose: bool, passthrough: bool) -> RunRe
         // owners with no destroyed allocation: every allocation whose model owner count is 0 is gone
         let stale: Vec<u32> = env.m(|m| m.allocs.iter().filter(|a| a.owners == 0 && !a.dead && !a.leaked).map(|a| a.block).collect());
         if !stale.is_empty() {
+            note_blocks(&env, &stale);
             violation(
                 "leak:not-freed",
                 format!("after the parallel section: allocation(s) {:?} have no owner left but were never destroyed", stale),
@@ -217,6 +218,7 @@ fn run_family<F: Family>(p: &Program, verbose: bool, passthrough: bool) -> RunRe
         triomphe_verif_rt::harness_error("ledger table overflow");
     }
     if rep.nleaks != leaked_blocks.len() {
+        crate::context::add_fams(0, env.m(|m| m.allocs.iter().filter(|a| !a.leaked).fold(0, |x, a| if rep.leaks[..rep.nleaks.min(16)].contains(&a.block) { x | a.fams } else { x })));
         violation(
             "leak:block",
             format!("at the end of the run {} block(s) are still allocated ({:?}), documented leaks: {:?}", rep.nleaks, &rep.leaks[..rep.nleaks.min(16)], leaked_blocks),
